@@ -12,7 +12,8 @@
    spmorigin <flip> <dims3> <zooms q-list> <origin3>
    spmw <flip> <A12 q-list>
    spmr <flip> <empty> <has_mat> <has_M> <M q-list> <mat q-list>
-   allclose <rtol> <atol> <a q-list> <b q-list> *)
+   allclose <rtol> <atol> <a q-list> <b q-list>
+   upd <has_affine> <close> *)
 let q_of_string (s : string) : q =
   match String.split_on_char '/' (String.trim s) with
   | [n; d] -> { qnum = z_of_string n; qden = pos_of_big (BigZ.of_string d) }
@@ -126,5 +127,7 @@ let handle op args = match op, args with
              | None -> "err driver:unreachable"))
   | "allclose", [rtol; atol; a; b] ->
     "ok " ^ string_of_bool (allclose (q_of_string rtol) (q_of_string atol) (qlist_of_string a) (qlist_of_string b))
+  | "upd", [ha; cl] ->
+    (match update_decision (bool_of_string ha) (bool_of_string cl) with Keep -> "ok keep" | Rewrite -> "ok rewrite")
   | _ -> "err driver:badop"
 let () = run_lines handle
